@@ -333,19 +333,26 @@ def addSections (s : State) : List Sec → E State
     let s2 ← addRegion s1 r
     addSections s2 rest
 
-def sections (s : State) : E (List Sec) := do
-  let areas ← sortAreas (s.cands ++ s.subs)
+/-- the sections `create_regions(candidate_clusters, subregions)` forms from the given areas -/
+def sectionsOf (wrap : Option Int) (cands subs : List Feat) : E (List Sec) := do
+  let areas ← sortAreas (cands ++ subs)
   match areas with
   | [] => pure []
   | first :: rest =>
-    let secs ← sweepAreas s.wrap first.loc [first] rest
-    mergeFirstLast s.wrap secs.length secs
+    let secs ← sweepAreas wrap first.loc [first] rest
+    mergeFirstLast wrap secs.length secs
 
-def createRegions (s : State) : E State := do
-  if s.cands.isEmpty && s.subs.isEmpty then pure s
+/-- `Record.create_regions(candidate_clusters=cands, subregions=subs)` with explicitly passed lists -/
+def createRegionsOf (s : State) (cands subs : List Feat) : E State := do
+  if cands.isEmpty && subs.isEmpty then pure s
   else
-    let secs ← sections s
+    let secs ← sectionsOf s.wrap cands subs
     addSections s secs
+
+def sections (s : State) : E (List Sec) := sectionsOf s.wrap s.cands s.subs
+
+/-- `Record.create_regions()`: the record's own candidate clusters and subregions -/
+def createRegions (s : State) : E State := createRegionsOf s s.cands s.subs
 
 /-- `Record.clear_candidate_clusters()` -/
 def clearCandidates (s : State) : E State := do
@@ -377,6 +384,9 @@ inductive Op where
   | addRegion (candIds subIds : List Nat)
   | clearProtos | clearCands | clearSubs | clearRegions
   | createRegions
+  /-- `record.create_regions(candidate_clusters=[…], subregions=[…])`: candidate clusters of the record or
+      constructed ones that were never added, subregions of the record -/
+  | createRegionsWith (candIds subIds : List Nat)
 deriving Repr, Inhabited
 
 def step (s : State) : Op → E State
@@ -405,6 +415,12 @@ def step (s : State) : Op → E State
   | .clearSubs => clearSubregions s
   | .clearRegions => pure (clearRegions s)
   | .createRegions => createRegions s
+  | .createRegionsWith cs ss => do
+    let cands ← findAll (s.cands ++ s.pool) cs
+    let subs ← findAll s.subs ss
+    -- only lists without repeated areas are modelled
+    if !(decide (cs ++ ss).Nodup) then throw "KeyError"
+    createRegionsOf s cands subs
 
 def run (s : State) : List Op → E State
   | [] => pure s
@@ -415,6 +431,14 @@ def run (s : State) : List Op → E State
 /-! ### observables: `get_*_number`, parent numbers -/
 
 def numberOf (d : Dict Nat) (f : Feat) : Option Nat := d.get f.id
+
+/-- is the parent link of object `k` (held anywhere, in the record or not) alive: none, or a region of the
+    record / a candidate cluster of the record that lists `k` -/
+def parentAlive (s : State) (k : Nat) : Bool :=
+  match s.parentOf k with
+  | none => true
+  | some p => s.regions.any (fun r => r.id == p && (r.kids ++ r.subs).contains k) ||
+              s.cands.any (fun c => c.id == p && c.kids.contains k)
 
 /-- position (1-based) of the object with this id in a list, by identity -/
 def posOf (l : List Feat) (id : Nat) : Option Nat :=
